@@ -327,7 +327,7 @@ func (t *c19AcctTr) assignedOuter(l []ast.Stmt) (vars []string, store bool) {
 					}
 				}
 			case *ast.CallExpr:
-				if c19CalleeName(x.Fun) == "copyItem" {
+				if c19CalleeName(x.Fun) == c19CopyName {
 					store = true
 				}
 			}
@@ -470,7 +470,7 @@ func (t *c19AcctTr) assign(x *ast.AssignStmt, l []ast.Stmt, ind string, fin func
 	}
 	if call, ok := x.Rhs[0].(*ast.CallExpr); ok {
 		switch c19CalleeName(call.Fun) {
-		case "copyItem":
+		case c19CopyName:
 			if len(call.Args) != 2 {
 				return "", t.errf("call of copyItem")
 			}
@@ -487,7 +487,7 @@ func (t *c19AcctTr) assign(x *ast.AssignStmt, l []ast.Stmt, ind string, fin func
 			pre := t.flush(ind)
 			r, err := rest(1)
 			return pre + "let '(" + c19Gv(id.Name) + ", st) := copy_item " + v + " " + n + " st in\n" + ind + r, err
-		case "uniqueKeys":
+		case c19UniqName:
 			if len(call.Args) != 1 {
 				return "", t.errf("call of uniqueKeys")
 			}
@@ -652,11 +652,12 @@ func c19AcctCopyItem(fn *ast.FuncDecl) (string, error) {
 			ps = append(ps, n.Name+" "+types.ExprString(fl.Type))
 		}
 	}
-	if strings.Join(ps, ",") != "item any,n int" {
+	if len(ps) != 2 || !strings.HasSuffix(ps[0], " any") || !strings.HasSuffix(ps[1], " int") {
 		return "", t.errf("parameters (%s)", strings.Join(ps, ", "))
 	}
-	t.ints["n"] = true
-	t.elems["item"] = c19Gv("item")
+	item, cnt := strings.TrimSuffix(ps[0], " any"), strings.TrimSuffix(ps[1], " int")
+	t.ints[cnt] = true
+	t.elems[item] = c19Gv(item)
 	l := fn.Body.List
 	if len(l) < 3 {
 		return "", t.errf("body too short")
@@ -671,7 +672,7 @@ func c19AcctCopyItem(fn *ast.FuncDecl) (string, error) {
 		return "", err
 	}
 	ret, ok := is.Body.List[0].(*ast.ReturnStmt)
-	if !ok || len(ret.Results) != 1 || !c19IsSingleton(ret.Results[0], "item") {
+	if !ok || len(ret.Results) != 1 || !c19IsSingleton(ret.Results[0], item) {
 		return "", t.errf("the small-count case does not return []any{item}")
 	}
 	// ret := make([]any, N)
@@ -689,7 +690,7 @@ func c19AcctCopyItem(fn *ast.FuncDecl) (string, error) {
 	if !ok || sis.Else != nil || len(sis.Body.List) != 3 {
 		return "", t.errf("third statement is not the stream case")
 	}
-	sv, ok := c19StreamAssertInit(sis, "item")
+	sv, ok := c19StreamAssertInit(sis, item)
 	if !ok {
 		return "", t.errf("third statement is not `if s, ok := item.(streamReader); ok`")
 	}
@@ -724,9 +725,9 @@ func c19AcctCopyItem(fn *ast.FuncDecl) (string, error) {
 	if !ok || len(r2.Results) != 1 || c19Squash(types.ExprString(r2.Results[0])) != retName.Name {
 		return "", t.errf("stream case: return")
 	}
-	return "Definition copy_item (v_item : handle) (v_n : Z) (st : store) : list handle * store :=\n" +
-		"  if " + c + " then ([v_item], st)\n" +
-		"  else g_stream_copy v_item " + n + " st.\n", nil
+	return "Definition copy_item (" + c19Gv(item) + " : handle) (" + c19Gv(cnt) + " : Z) (st : store) : list handle * store :=\n" +
+		"  if " + c + " then ([" + c19Gv(item) + "], st)\n" +
+		"  else g_stream_copy " + c19Gv(item) + " " + n + " st.\n", nil
 }
 
 // []any{<x>}
@@ -759,11 +760,13 @@ func c19StreamAssertInit(is *ast.IfStmt, x string) (string, bool) {
 }
 
 func c19AcctUniqueKeys(fn *ast.FuncDecl) (string, error) {
-	t := &c19AcctTr{fn: "uniqueKeys", ints: map[string]bool{}, slices: map[string]string{"keys": "key"}, elems: map[string]string{}}
-	if len(fn.Type.Params.List) != 1 || len(fn.Type.Params.List[0].Names) != 1 || fn.Type.Params.List[0].Names[0].Name != "keys" ||
+	t := &c19AcctTr{fn: "uniqueKeys", ints: map[string]bool{}, slices: map[string]string{}, elems: map[string]string{}}
+	if len(fn.Type.Params.List) != 1 || len(fn.Type.Params.List[0].Names) != 1 ||
 		c19Squash(types.ExprString(fn.Type.Params.List[0].Type)) != "[]string" {
 		return "", t.errf("parameters")
 	}
+	keysName := fn.Type.Params.List[0].Names[0].Name
+	t.slices[keysName] = "key"
 	l := fn.Body.List
 	if len(l) != 4 {
 		return "", t.errf("%d statements, expected 4", len(l))
@@ -868,7 +871,7 @@ func c19AcctUniqueKeys(fn *ast.FuncDecl) (string, error) {
 		return "", t.errf("return")
 	}
 	st := "(" + c19Gv(seen.Name) + ", " + c19Gv(ret.Name) + ")"
-	return "Definition unique_keys (v_keys : list key) : list key :=\n" +
+	return "Definition unique_keys (" + c19Gv(keysName) + " : list key) : list key :=\n" +
 		"  let " + c19Gv(seen.Name) + " := g_set_empty in\n" +
 		"  let " + c19Gv(ret.Name) + " := " + r0 + " in\n" +
 		"  let '" + st + " := g_range " + over + " " + st + " (fun acc " + c19Gv(vv.Name) + " => let '" + st + " := acc in\n" +
@@ -1069,16 +1072,19 @@ func c19AcctUpdateValues(fn *ast.FuncDecl) (string, error) {
 // OnWithStreamHandle: if len(handlers) == 0 { return ctx, inOut } ; inOuts := cpy(N) ;
 // for i, handler := range handlers { ctx = handle(ctx, handler, inOuts[i]) } ; return ctx, inOuts[J]
 func c19AcctOnWithStreamHandle(fn *ast.FuncDecl) (string, error) {
-	t := &c19AcctTr{fn: "OnWithStreamHandle", ints: map[string]bool{}, slices: map[string]string{"handlers": "unit"}, elems: map[string]string{"inOut": c19Gv("inOut")}}
+	t := &c19AcctTr{fn: "OnWithStreamHandle", ints: map[string]bool{}, slices: map[string]string{}, elems: map[string]string{}}
 	var ps []string
 	for _, fl := range fn.Type.Params.List {
 		for _, n := range fl.Names {
 			ps = append(ps, n.Name)
 		}
 	}
-	if strings.Join(ps, ",") != "ctx,inOut,handlers,cpy,handle" {
+	if len(ps) != 5 {
 		return "", t.errf("parameters (%s)", strings.Join(ps, ", "))
 	}
+	pCtx, pInOut, pHandlers, pCpy, pHandle := ps[0], ps[1], ps[2], ps[3], ps[4]
+	t.slices[pHandlers] = "unit"
+	t.elems[pInOut] = c19Gv(pInOut)
 	l := fn.Body.List
 	if len(l) < 4 {
 		return "", t.errf("%d statements, expected 4", len(l))
@@ -1093,7 +1099,7 @@ func c19AcctOnWithStreamHandle(fn *ast.FuncDecl) (string, error) {
 		return "", err
 	}
 	r0, ok := is.Body.List[0].(*ast.ReturnStmt)
-	if !ok || len(r0.Results) != 2 || c19Squash(types.ExprString(r0.Results[0])) != "ctx" || c19Squash(types.ExprString(r0.Results[1])) != "inOut" {
+	if !ok || len(r0.Results) != 2 || c19Squash(types.ExprString(r0.Results[0])) != pCtx || c19Squash(types.ExprString(r0.Results[1])) != pInOut {
 		return "", t.errf("the no-handler case does not return the stream itself")
 	}
 	// inOuts := cpy(N)
@@ -1103,7 +1109,7 @@ func c19AcctOnWithStreamHandle(fn *ast.FuncDecl) (string, error) {
 	}
 	cps, _ := as.Lhs[0].(*ast.Ident)
 	call, ok := as.Rhs[0].(*ast.CallExpr)
-	if !ok || cps == nil || c19CalleeName(call.Fun) != "cpy" || len(call.Args) != 1 {
+	if !ok || cps == nil || c19CalleeName(call.Fun) != pCpy || len(call.Args) != 1 {
 		return "", t.errf("statement 2 is not inOuts := cpy(n)")
 	}
 	n, err := t.intExpr(call.Args[0])
@@ -1113,17 +1119,17 @@ func c19AcctOnWithStreamHandle(fn *ast.FuncDecl) (string, error) {
 	t.slices[cps.Name] = "handle"
 	// for i, handler := range handlers { ctx = handle(ctx, handler, inOuts[i]) }
 	rs, ok := l[2].(*ast.RangeStmt)
-	if !ok || len(rs.Body.List) != 1 || c19Squash(types.ExprString(rs.X)) != "handlers" {
+	if !ok || len(rs.Body.List) != 1 || c19Squash(types.ExprString(rs.X)) != pHandlers {
 		return "", t.errf("statement 3 is not the loop over the handlers")
 	}
 	iv, _ := rs.Key.(*ast.Ident)
 	hv, _ := rs.Value.(*ast.Ident)
 	ha, ok := rs.Body.List[0].(*ast.AssignStmt)
-	if !ok || iv == nil || hv == nil || len(ha.Lhs) != 1 || len(ha.Rhs) != 1 || c19Squash(types.ExprString(ha.Lhs[0])) != "ctx" {
+	if !ok || iv == nil || hv == nil || len(ha.Lhs) != 1 || len(ha.Rhs) != 1 || c19Squash(types.ExprString(ha.Lhs[0])) != pCtx {
 		return "", t.errf("loop body is not ctx = handle(ctx, handler, inOuts[i])")
 	}
 	hc, ok := ha.Rhs[0].(*ast.CallExpr)
-	if !ok || c19CalleeName(hc.Fun) != "handle" || len(hc.Args) != 3 || c19Squash(types.ExprString(hc.Args[1])) != hv.Name ||
+	if !ok || c19CalleeName(hc.Fun) != pHandle || len(hc.Args) != 3 || c19Squash(types.ExprString(hc.Args[1])) != hv.Name ||
 		c19Squash(types.ExprString(hc.Args[2])) != cps.Name+"["+iv.Name+"]" {
 		return "", t.errf("loop body is not ctx = handle(ctx, handler, inOuts[i])")
 	}
@@ -1147,7 +1153,7 @@ func c19AcctOnWithStreamHandle(fn *ast.FuncDecl) (string, error) {
 	}
 	// return ctx, inOuts[J]
 	r1, ok := l[len(l)-1].(*ast.ReturnStmt)
-	if !ok || len(r1.Results) != 2 || c19Squash(types.ExprString(r1.Results[0])) != "ctx" {
+	if !ok || len(r1.Results) != 2 || c19Squash(types.ExprString(r1.Results[0])) != pCtx {
 		return "", t.errf("final return")
 	}
 	last, err := t.elemExpr(r1.Results[1])
@@ -1155,11 +1161,11 @@ func c19AcctOnWithStreamHandle(fn *ast.FuncDecl) (string, error) {
 		return "", err
 	}
 	pre := lets + t.flush("  ")
-	return "Definition on_with_stream_handle (v_handlers : list unit) (v_inOut : handle) (st : store) : res (handle * list handle * store) :=\n" +
-		"  if " + c + " then Ok (v_inOut, [], st)\n" +
+	return "Definition on_with_stream_handle (" + c19Gv(pHandlers) + " : list unit) (" + c19Gv(pInOut) + " : handle) (st : store) : res (handle * list handle * store) :=\n" +
+		"  if " + c + " then Ok (" + c19Gv(pInOut) + ", [], st)\n" +
 		"  else\n" +
-		"  let '(" + c19Gv(cps.Name) + ", st) := g_cpy v_inOut " + n + " st in\n" +
-		"  do handed <- g_hand_range v_handlers " + c19Gv(cps.Name) + ";\n" +
+		"  let '(" + c19Gv(cps.Name) + ", st) := g_cpy " + c19Gv(pInOut) + " " + n + " st in\n" +
+		"  do handed <- g_hand_range " + c19Gv(pHandlers) + " " + c19Gv(cps.Name) + ";\n" +
 		"  " + pre + "Ok (" + last + ", handed, st).\n", nil
 }
 
@@ -1181,15 +1187,47 @@ func c19ExtractAcctCode(repo string) (string, string, error) {
 	if ow == nil {
 		return "", "", fmt.Errorf("internal/callbacks.OnWithStreamHandle not found")
 	}
+	// the functions are looked up by name and, when they carry another name (a rename), by what they are:
+	// the only function (any, int) -> []any; the only function []string -> []string that keeps a map[string]struct{};
+	// the only method of runner that calls both of the first and calculateBranch; the only method of channelManager
+	// that calls reportValues
+	c19CopyName, c19UniqName = "copyItem", "uniqueKeys"
 	ci := c19TopFunc(f, "copyItem")
+	if ci == nil {
+		ci = c19OnlyFunc(f, func(fn *ast.FuncDecl) bool {
+			return fn.Recv == nil && c19Sig(fn) == "any,int->[]any"
+		})
+		if ci != nil {
+			c19CopyName = ci.Name.Name
+		}
+	}
 	uk := c19TopFunc(f, "uniqueKeys")
+	if uk == nil {
+		uk = c19OnlyFunc(f, func(fn *ast.FuncDecl) bool {
+			return fn.Recv == nil && c19Sig(fn) == "[]string->[]string" && c19Mentions(fn, "map[string]struct{}")
+		})
+		if uk != nil {
+			c19UniqName = uk.Name.Name
+		}
+	}
 	rc := c19MethodOf(f, "runner", "resolveCompletedTasks")
+	if rc == nil {
+		rc = c19OnlyFunc(f, func(fn *ast.FuncDecl) bool {
+			return c19RecvIs(fn, "runner") && c19Calls(fn, c19CopyName) && c19Calls(fn, "calculateBranch")
+		})
+	}
 	uv := c19MethodOf(fm, "channelManager", "updateValues")
+	if uv == nil {
+		uv = c19OnlyFunc(fm, func(fn *ast.FuncDecl) bool {
+			return c19RecvIs(fn, "channelManager") && c19Calls(fn, "reportValues")
+		})
+	}
 	if ci == nil || uk == nil || rc == nil || uv == nil {
 		return "", "", fmt.Errorf("copyItem / uniqueKeys / (*runner).resolveCompletedTasks / (*channelManager).updateValues not found")
 	}
 	// private helpers called from the translated functions are expanded first (c19_inline.go)
 	inl := c19NewInliner(fset, filepath.Join(repo, "compose"))
+	inl.deny[c19CopyName], inl.deny[c19UniqName] = true, true
 	for _, fn := range []*ast.FuncDecl{ci, uk, rc, uv} {
 		inl.expandFunc(fn)
 	}
@@ -1224,6 +1262,82 @@ func c19ExtractAcctCode(repo string) (string, string, error) {
 }
 
 // ---------------------------------------------------------------- helpers (own copies: tools/go2v is one package)
+
+// the names under which resolveCompletedTasks calls its two primitives (set by c19ExtractAcctCode)
+var c19CopyName, c19UniqName = "copyItem", "uniqueKeys"
+
+// c19OnlyFunc returns the function of the file that satisfies the predicate when there is exactly one
+func c19OnlyFunc(f *ast.File, pred func(*ast.FuncDecl) bool) *ast.FuncDecl {
+	var found *ast.FuncDecl
+	for _, d := range f.Decls {
+		if fn, ok := d.(*ast.FuncDecl); ok && fn.Body != nil && pred(fn) {
+			if found != nil {
+				return nil
+			}
+			found = fn
+		}
+	}
+	return found
+}
+
+// c19Sig renders parameter and result types: "any,int->[]any"
+func c19Sig(fn *ast.FuncDecl) string {
+	list := func(fl *ast.FieldList) string {
+		var ts []string
+		if fl != nil {
+			for _, f := range fl.List {
+				n := len(f.Names)
+				if n == 0 {
+					n = 1
+				}
+				for i := 0; i < n; i++ {
+					ts = append(ts, c19Squash(types.ExprString(f.Type)))
+				}
+			}
+		}
+		return strings.Join(ts, ",")
+	}
+	if fn.Type.TypeParams != nil {
+		return "generic"
+	}
+	return list(fn.Type.Params) + "->" + list(fn.Type.Results)
+}
+
+func c19RecvIs(fn *ast.FuncDecl, typ string) bool {
+	if fn.Recv == nil || len(fn.Recv.List) != 1 {
+		return false
+	}
+	st, ok := fn.Recv.List[0].Type.(*ast.StarExpr)
+	if !ok {
+		return false
+	}
+	id, ok := st.X.(*ast.Ident)
+	return ok && id.Name == typ
+}
+
+func c19Calls(fn *ast.FuncDecl, name string) bool {
+	found := false
+	ast.Inspect(fn.Body, func(n ast.Node) bool {
+		if c, ok := n.(*ast.CallExpr); ok && c19CalleeName(c.Fun) == name {
+			found = true
+		}
+		return !found
+	})
+	return found
+}
+
+func c19Mentions(fn *ast.FuncDecl, typ string) bool {
+	found := false
+	ast.Inspect(fn.Body, func(n ast.Node) bool {
+		if e, ok := n.(ast.Expr); ok && !found {
+			if _, isType := e.(*ast.MapType); isType && c19Squash(types.ExprString(e)) == typ {
+				found = true
+			}
+		}
+		return !found
+	})
+	return found
+}
 
 func c19ParseGo(fset *token.FileSet, repo string, rel ...string) (*ast.File, error) {
 	return parser.ParseFile(fset, filepath.Join(append([]string{repo}, rel...)...), nil, 0)
